@@ -18,6 +18,7 @@ type EVM struct {
 	deployed   int
 	CallFails  bool // CallEVM returns an error
 	CallVmErr  bool // CallEVM returns a response with VmError set
+	VmErrText  string // the VM error text (default: execution reverted)
 	Calls      int
 	BeforeCall func(ctx sdk.Context) // invoked at the start of every CallEVM (to model writes made before a failure)
 }
@@ -58,6 +59,9 @@ func (e *EVM) CallEVM(ctx sdk.Context, from common.Address, contract *common.Add
 		return nil, bankError("evm: call failed")
 	}
 	if e.CallVmErr {
+		if e.VmErrText != "" {
+			return &evmtypes.MsgEthereumTxResponse{VmError: e.VmErrText}, nil
+		}
 		return &evmtypes.MsgEthereumTxResponse{VmError: "execution reverted"}, nil
 	}
 	return &evmtypes.MsgEthereumTxResponse{}, nil
